@@ -111,4 +111,45 @@ theorem pi_reset_semantics (thr : α) (t : ConvTest) (budget : Nat) (reset : Opt
       evaluate P c γ thr t (s.policy.getD []) budget (match reset with | some v0 => v0 | none => s.values) := by
   cases reset <;> simp [piStep]
 
+/-- the stored policy always has one action per state: initially by assumption, afterwards because it is extracted -/
+theorem pi_policy_length (hv : C02.Valid P c) (thr : α) (t : ConvTest) (budget : Nat) (reset : Option (List α)) (s : SState α)
+    (pl0 : List Nat) (hsp : s.policy = some pl0) (hpl0 : pl0.length = P.nS) (j : Nat) :
+    ∃ pl, (iterState (piStep P c γ thr t budget reset) j s).policy = some pl ∧ pl.length = P.nS := by
+  cases j with
+  | zero => exact ⟨pl0, by simpa [iterState] using hsp, hpl0⟩
+  | succ j =>
+    rw [iterState_succ']
+    refine ⟨_, pi_returned_greedy P c γ thr t budget reset _, ?_⟩
+    rw [C02.policy_eq_map_greedy P c hv]; simp
+
+/-- **whole `solve()` call**: policy iteration reports convergence (stops before its iteration limit) **only when** the last
+    improvement step left every state's action unchanged — the returned policy is the very policy that was evaluated in the last
+    iteration — and in that case (as in every exit) the returned policy is greedy for the returned values; if no improvement
+    step is stable within the limit, exactly `k` iterations are performed -/
+theorem pi_solve_stops_only_when_stable (hv : C02.Valid P c) (thr : α) (t : ConvTest) (budget : Nat) (reset : Option (List α))
+    (f k : Nat) (s : SState α) (pl0 : List Nat) (hsp : s.policy = some pl0) (hpl0 : pl0.length = P.nS) :
+    ((piSolve P c γ thr t budget reset f k s).converged = true →
+      1 ≤ (piSolve P c γ thr t budget reset f k s).sweeps ∧
+      (piSolve P c γ thr t budget reset f k s).state.policy =
+        (iterState (piStep P c γ thr t budget reset) ((piSolve P c γ thr t budget reset f k s).sweeps - 1) s).policy ∧
+      (piSolve P c γ thr t budget reset f k s).state.policy =
+        some (policy P c γ (piSolve P c γ thr t budget reset f k s).state.values 0)) ∧
+    ((piSolve P c γ thr t budget reset f k s).converged = false → (piSolve P c γ thr t budget reset f k s).sweeps = k) := by
+  obtain ⟨h1, h2, h3⟩ := C08.solve_first_below (piStep P c γ thr t budget reset) (·.iter) (fun _ s => s) f k s
+  simp only [piSolve]
+  refine ⟨?_, fun h => (h3 h).1⟩
+  intro hc
+  obtain ⟨hm, hfire, _⟩ := h2 hc
+  set m := (solveCall (piStep P c γ thr t budget reset) (fun x => x.iter) (fun _ s => s) f k s).sweeps with hmdef
+  set s0 := iterState (piStep P c γ thr t budget reset) (m - 1) s with hs0
+  have hstate : iterState (piStep P c γ thr t budget reset) m s = (piStep P c γ thr t budget reset s0).1 := by
+    have : m = (m - 1) + 1 := by omega
+    rw [this, iterState_succ']
+  obtain ⟨pl, hpl, hlen⟩ := pi_policy_length P c γ hv thr t budget reset s pl0 hsp hpl0 (m - 1)
+  rw [← hs0] at hpl
+  have hstable := (pi_stops_iff P c γ thr t budget reset s0 pl hpl hlen hv).mp hfire
+  refine ⟨hm, ?_, ?_⟩
+  · rw [h1, hstate, hstable, hpl]
+  · rw [h1, hstate]; exact pi_returned_greedy P c γ thr t budget reset s0
+
 end MdpaxV.C05
